@@ -595,6 +595,10 @@ func (i *Interp) ufApply(name string, k types.BasicKind, args []value) value {
 				}
 			}
 			ts = append(ts, acc)
+		case *value:
+			// pointer arguments (e.g. the constant *crc32.Table) do not enter the function
+			shape += "_p"
+			continue
 		default:
 			kk := kindOfValue(a)
 			if kk == types.Invalid {
